@@ -5,8 +5,13 @@ import EinoV.Expected.C18
 namespace EinoV.Oracle.C18
 open Lean EinoV EinoV.C18
 
+/-- a tool call / a streamed delta of one: {"id","name","args"} and, when the delta carries
+    `ToolCall.Index`, "index": n (absent or null = nil) -/
 def parseCall (j : Json) : JE ToolCall := do
-  pure { id := (← J.str j "id"), name := (← J.str j "name"), args := (← J.str j "args") }
+  let index ← match J.fieldD j "index" Json.null with
+    | .null => pure none
+    | v => do pure (some (← J.asNat v))
+  pure { id := (← J.str j "id"), name := (← J.str j "name"), args := (← J.str j "args"), index := index }
 
 def parseRole (s : String) : JE Role :=
   match s with
@@ -98,7 +103,8 @@ def topoJson (T : Topo) : Json :=
 
 /-- case {"kind":"topology","rd":bool} → the model's topology table;
     case {"kind":"run", orig, script, tools, rd, maxStep, modifier, checker, host} → both modes
-    (chunks: {content, calls, extras}) -/
+    (chunks: {content, calls, extras}; the calls of a chunk are deltas {id, name, args, index?},
+    assembled per index by the model; calls in the answer are printed without their index) -/
 def handle (c : Json) : JE Json := do
   let F := Expected.C18.facts
   match J.strD c "kind" "run" with
